@@ -532,6 +532,16 @@ def nd_getattr(I, st, ref, name):
                 return st.alloc(ne)
             raise Unsupported("astype")
         yield st, simple(_as)
+    elif name == "__bool__":
+        def _bool(I, st, a, k):
+            ee = st.get(ref)
+            if size(ee.shape) == 1:
+                yield st, I.truth(ee.data[0], st)
+            elif size(ee.shape) == 0:
+                raise Unsupported("truth value of an empty array")
+            else:
+                yield st, exc("ValueError", "The truth value of an array with more than one element is ambiguous")
+        yield st, Builtin("ndarray.__bool__", _bool)
     elif name == "dtype":
         yield st, DtypeVal(dtype_of(e))
     elif name == "flat":
@@ -597,6 +607,8 @@ def make_module(I):
         shape = tuple(I.iterate(shape, st))
         if not all(isinstance(s, int) for s in shape):
             raise Unsupported("np.zeros with symbolic shape")
+        if any(s < 0 for s in shape):
+            return exc("ValueError", "negative dimensions are not allowed")
         z = 0 if (isinstance(dtype, BuiltinClass) and dtype.name == "int") else Fraction(0)
         return st.alloc(NdE(shape, [z] * size(shape)))
 
@@ -606,6 +618,10 @@ def make_module(I):
         if isinstance(shape, int):
             shape = (shape,)
         shape = tuple(I.iterate(shape, st))
+        if not all(isinstance(s, int) for s in shape):
+            raise Unsupported("np.ones with symbolic shape")
+        if any(s < 0 for s in shape):
+            return exc("ValueError", "negative dimensions are not allowed")
         return st.alloc(NdE(shape, [Fraction(1)] * size(shape)))
 
     reg("ones", ones)
@@ -621,7 +637,21 @@ def make_module(I):
         return st.alloc(NdE((len(vals),), [Fraction(v) if isfloat else v for v in vals]))
 
     reg("arange", arange)
-    reg("dot",lambda I, st, a, b: dot(I, st, a, b))
+    def empty(I, st, shape, dtype=None):
+        # np.empty: uninitialised float array = arbitrary (fresh, unconstrained) real in every cell
+        if dtype is not None and not (isinstance(dtype, BuiltinClass) and dtype.name == "float"):
+            raise Unsupported("np.empty dtype")
+        if isinstance(shape, int):
+            shape = (shape,)
+        shape = tuple(I.iterate(shape, st))
+        if not all(isinstance(s, int) for s in shape):
+            raise Unsupported("np.empty with symbolic shape")
+        if any(s < 0 for s in shape):
+            return exc("ValueError", "negative dimensions are not allowed")
+        return st.alloc(NdE(shape, [I.fresh("real", "uninit") for _ in range(size(shape))]))
+
+    reg("empty", empty)
+    reg("dot", lambda I, st, a, b: dot(I, st, a, b))
 
     def elementwise(fn):
         def f(I, st, a, k):
@@ -685,6 +715,7 @@ def make_module(I):
 
     reg("issubdtype", _issubdtype)
     N["float64"] = BuiltinClass("float", float)
+    N["float32"] = BuiltinClass("float", float)  # A1: single precision is a real number too (rounding not modelled)
     N["int64"] = BuiltinClass("int", int)
     N["integer"] = BuiltinClass("integer")
     N["floating"] = BuiltinClass("floating")
@@ -738,6 +769,7 @@ def make_module(I):
         return M.conj([M.eq_values(I, st, x, y) for x, y in zip(da, db)])
 
     reg("array_equal", _array_equal)
+    reg("shape", lambda I, st, v: tuple(asnd(I, st, v)[0]))
 
     def _isscalar(I, st, v):
         return is_number(v) or isinstance(v, str)
